@@ -79,8 +79,9 @@ def props_of(rep, rec=None):
             diff = {k for k in set(exp) | set(got) if exp.get(k) != got.get(k)}
         else:
             diff = {"?"}
-        if diff - {"sendtx"}:
+        if diff - {"sendtx", "burnt"}:
             out |= {"C10", "C13"}
+        # (the cycles-burnt counter is modelled for coverage of the heartbeat; no listed property speaks of it)
         if "sendtx" in diff or (rec is not None and rec.get("ev") == "send_tx"):
             out |= {"C19"}              # "counts the request ... in none of these cases is anything forwarded or counted"
     elif tag.startswith("book."):
